@@ -70,6 +70,7 @@ package mqtt
 //@ loop 2: invariant (ref(c.peek) == rx_bufref(c.bufr) || ref(c.peek) == 0 || c.peek == old(c.peek)) && (len(c.peek) <= rx_size(c.bufr) || c.peek == old(c.peek))
 //@ ensures[C13] (err == nil || hastype(err, *BigMessage)) ==> rx_pos(c.bufr) - old(rx_pos(c.bufr)) >= 2 && rx_pos(c.bufr) - old(rx_pos(c.bufr)) <= 5
 //@ ensures[C13] err == nil ==> len(c.peek) <= 268435455
+//@ ensures[C06] err == nil ==> len(c.peek) <= rx_buf(c.bufr)
 //@ ensures ref(c.peek) == rx_bufref(c.bufr) || ref(c.peek) == 0 || c.peek == old(c.peek)
 //@ ensures len(c.peek) <= rx_size(c.bufr) || c.peek == old(c.peek)
 //@ ensures hastype(err, *BigMessage) ==> unbox(err, *BigMessage).Size >= 0 && unbox(err, *BigMessage) != nil
@@ -816,6 +817,10 @@ package mqtt
 //@ requires[C10] rdr(c)
 //@ stable writeSem, seqSem
 //@ requires rdinv(c) && rdmaps(c) && (c.readConn == nil) == (c.bufr == nil)
+// Between two calls the packet in c.peek is still unread in the reader: the skip at the start of the next call
+// drops exactly those bytes, once (a peek kept after its bytes were skipped would drop the next packet's too).
+//@ requires[C06] c.bufr != nil ==> len(c.peek) <= rx_buf(c.bufr)
+//@ ensures[C06,id=peek_still_buffered] c.bufr != nil && !closed(c.writeSem) ==> len(c.peek) <= rx_buf(c.bufr)
 //@ loop 1: invariant rdinv(c)
 //@ loop[reveal=flatlen_] 1: invariant rdmaps(c)
 //@ loop 1: invariant c.readConn != nil && c.bufr != nil && c.bigMessage == nil
@@ -1112,6 +1117,8 @@ package mqtt
 //@ at[C12,C14] send ack#1: assert pingans(v)
 //@ ensures[C12,C11] forall(k, !has(c.perPacketID, k)) && len(c.pingAck) == 0
 //@ func mqtt.(*Client).ReadSlices -> message, topic, err
+//@ requires[C06] c.bufr != nil ==> len(c.peek) <= rx_buf(c.bufr)
+//@ ensures[C06,id=peek_still_buffered] (err == nil || !Is(err, ErrClosed)) && c.bufr != nil && !closed(c.writeSem) ==> len(c.peek) <= rx_buf(c.bufr)
 // (after Close the sequence tokens are gone for good; the store is left as it is)
 //@ ensures[C02,C01,id=window_kept] !old(alowin(c)) || alowin(c) || (err != nil && Is(err, ErrClosed))
 //@ ensures[C02,C01,id=window_kept] !old(eowin(c)) || eowin(c) || (err != nil && Is(err, ErrClosed))
